@@ -8,7 +8,7 @@ from numpy import ndarray
 
 def hash_args(*args):
     """Return a tuple of hashes, with numpy support."""
-    return tuple(hash(arg.tobytes())
+    return tuple(hash((arg.shape, arg.tobytes()))
                  if isinstance(arg, ndarray)
                  else hash(arg) for arg in args)
 
